@@ -140,6 +140,14 @@ def gen(ctx, seed, tier):
             seen.add(c)
             out.append(c)
     # the build without copy_file_range(): the fault-free cases again (spec only)
+    # the same calls in a process whose descriptor 0 is closed (the source, or the destination, becomes descriptor 0)
+    def z(c):
+        t = c.split()
+        t[9] = "z" + t[9]
+        return " ".join(t)
+    zs = [c for c in out if c.startswith("K ")]
+    out += [z(c) for c in zs if c.split()[10] == "-"][:(300 if thorough else 100)]
+    out += [z(c) for c in r.sample(zs, min(len(zs), 1500 if thorough else 300))]
     out += ["~ " + c for c in out if c.startswith("K ") and c.split()[10] == "-"][:(400 if thorough else 120)]
     return out
 
@@ -178,6 +186,10 @@ def run_model(ctx, cases):
             bs = int(info.get("bs", "4096"))
             conv.append(mk("R", "@%s:%s" % (t[1], t[2]) if t[1] != "0" else "-", "N", "-", 0, bs, bs, "A", 0,
                            (["F"] * 5 + ["E%d" % e]) if e > 0 else []))
+        elif c.startswith("K ") and c.split()[9].startswith("z"):
+            t = c.split()               # descriptor 0 closed for the call: descriptor numbers are not part of the model
+            t[9] = t[9][1:]
+            conv.append(" ".join(t))
         else:
             conv.append(c)
     ms, ss = ctx.run_model("drv_c14", conv, timeout=1500)
